@@ -220,6 +220,10 @@ def build_encoder(case, string_class=None):
               unknown_char_warning=bool(case.get('warn', len(case.get('s', '')) % 3 == 0)))     # default flag on a third of the cases (logged to a NullHandler)
     if string_class is not None:
         kw['latex_string_class'] = string_class
+    if case.get('omit_rules') and case['rules'] == [B_DEF]:
+        # the documented default of the keyword: the rules of the case are then [B_DEF] (a shrunk case with other rules passes them)
+        if case['omit_rules'] == 'none' and case.get('partial') is not None: kw['conversion_rules'] = None    # signature default of the subclass only
+        else: del kw['conversion_rules']
     if case.get('partial') is not None:
         return le.PartialLatexToLatexEncoder(keep_latex_chars=case['partial']['keep'], **kw)
     return le.UnicodeToLatexEncoder(**kw)
@@ -814,6 +818,21 @@ def cases(tier, rng):
         s = ''.join(rng.choice(LATEX_ATOMS) for _ in range(rng.randint(1, 8)))
         rules = [rand_rule(rng) for _ in range(rng.choice([0, 1, 2]))] + [rng.choice([B_DEF, B_XML])]
         yield enc(s, rules, prot=rand_prot(rng), pol=rand_pol(rng), nao=(rng.random() < 0.15), partial={'keep': rng.choice(KEEPS)})
+    # 6b. degenerate rule lists through both classes: empty list (legitimate: only ASCII copying and the unknown-character policy
+    #     remain), a list without any built-in table, the keyword omitted / None (documented: ['defaults'])
+    for s in ['caf\u00e9 & th\u00e9 --> 100% ... \u4e7e', '\u00fc', 'a\\b{c}$x$', '', ' ', '\x01\u00e9']:
+        for pol in POLS:
+            for nao in (False, True):
+                for part in (None, {'keep': KEEPS[0]}, {'keep': ''}):
+                    yield enc(s, [], prot=rng.choice(PROTS), pol=pol, nao=nao, partial=part)
+                    for om in ('omit', 'none'):
+                        d = enc(s, [B_DEF], prot=rng.choice(PROTS), pol=pol, nao=nao, partial=part); d['omit_rules'] = om
+                        yield d
+    for _ in range(600 if quick else 6000):
+        s = ''.join(rng.choice(LATEX_ATOMS) for _ in range(rng.randint(1, 6)))
+        rules = [rand_rule(rng) for _ in range(rng.choice([0, 0, 1, 2]))]
+        yield enc(s, rules, prot=rand_prot(rng), pol=rand_pol(rng), nao=(rng.random() < 0.15),
+                  partial=({'keep': rng.choice(KEEPS)} if rng.random() < 0.7 else None))
     # 7. homomorphism under per-character rules, on the implementation
     n7 = 1500 if quick else 15000
     for _ in range(n7):
